@@ -28,11 +28,20 @@ ASSUMPTIONS = ["mixed case (some arrays equal-length, others not): for the equal
 STAT_KEYS = ["rmse", "mean", "median", "std", "min", "max", "sse"]
 
 
-def make_result(rng, keys_stats, keys_arrays, lengths, order_seed, name):
+def make_result(rng, keys_stats, keys_arrays, lengths, order_seed, name, in_memory=False):
     from evo.core.result import Result
     r = Result()
     r.info = {"title": "APE w.r.t. translation part (m)", "label": "APE (m)", "ref_name": "ref.txt",
               "est_name": name, "note": "π unicode ✓"}
+    if in_memory and rng.random() < .4:
+        # annotations of an API user (results that never went through a file): tuples, dictionaries
+        # keyed by numbers, numpy scalars, None
+        extra = {"plot_limits": (0.0, 2.5), "segment_names": {0: "warm-up", 1: "loop", 2.5: "half"},
+                 "n_runs": np.int64(5), "threshold": np.float32(0.25), "comment": None,
+                 "nested": {"window": (3, 7), "flags": [True, None]}}
+        for k in extra:
+            if rng.random() < .5:
+                r.info[k] = extra[k]
     ks = list(keys_stats)
     ka = list(keys_arrays)
     o = np.random.default_rng(order_seed)
@@ -79,7 +88,7 @@ def k_merge(run, case):
             else:
                 lengths[k] = int(rng.integers(0, 30))
         order_seed = int(rng.integers(2**31)) if case.get("shuffle", True) else 0
-        results.append(make_result(rng, keys_stats, keys_arrays, lengths, order_seed, "est%d.txt" % i))
+        results.append(make_result(rng, keys_stats, keys_arrays, lengths, order_seed, "est%d.txt" % i, in_memory=True))
     if mode == "stat_key_differs" and n > 1:
         r = results[int(rng.integers(n))]
         if rng.random() < .5:
